@@ -692,6 +692,8 @@ class SExec:
                 return list(a)
             if isinstance(a, SeqT):
                 return a
+            if isinstance(a, Sym) and a.kind in ("list", "tuple", "groups"):
+                return SeqT("sym", a)
             if isinstance(a, (SetT, SetRef)):
                 return SeqT("unordered", _set(a))     # iteration order of a set: havoc
             raise Unsupported("list(%r)" % (a,))
